@@ -134,6 +134,13 @@ Definition sconv (t1 v t2 : Z) : option Z :=
   if t1 =? t2 then Some v else match sinstant t1 v with Some i => scount i t2 | None => None end.
 Definition norm_ts (t : Z) : Z := ts_id (ts_of_Z t).
 
+(* spec of the Gregorian fields of (scale, count): from the calendar spec *)
+Definition spec_fields (t v : Z) : option (Z * Z * Z * Z * Z * Z * Z) :=
+  let w := v + spec_gregorian_zero t in
+  if in_rangev w then
+    let '(y, m, d) := civil_of_days (w / NS_PER_DAY) in let r := w mod NS_PER_DAY in
+    Some (y, m, d, r / (3600 * NS_PER_S), r / (60 * NS_PER_S) mod 60, r / NS_PER_S mod 60, r mod NS_PER_S)
+  else None.
 Definition sweekday_tai (t v : Z) : option Z := option_map (fun i => weekday_of_day (i / NS_PER_DAY)) (sinstant t v).
 
 Fixpoint spec_series (n : nat) (j : Z) (start step span : Z) (incl : bool) (t : Z) : list tok :=
@@ -287,6 +294,24 @@ Definition dispatch_calendar (name : string) (a : list tok) : option (list tok *
                          if negb (in_rangev r) then nospec
                          else if (t =? 4) && negb (spec_delta_utc v =? spec_delta_utc r) then nospec
                          else sdur r ++ [TZ t]
+            | None => nospec end)
+  | "next_at"%string, [TZ c; TZ n; TZ t; TZ w; TZ h] =>
+      let t := norm_ts t in Some (topt tepoch (next_weekday_at (mk_epoch c n t) (w mod 7) h), nospec)
+  | "prev_at"%string, [TZ c; TZ n; TZ t; TZ w; TZ h] =>
+      let t := norm_ts t in Some (topt tepoch (previous_weekday_at (mk_epoch c n t) (w mod 7) h), nospec)
+  | "with_hms"%string, [TZ c; TZ n; TZ t; TZ h; TZ m; TZ s] =>
+      let t := norm_ts t in let v := pval c n in
+      Some (tepoch (with_hms_strict (mk_epoch c n t) h m s),
+            (* sign and whole days of the count kept, time of day replaced *)
+            let days := Z.abs v / NS_PER_DAY in let r := days * NS_PER_DAY + ((h * 60 + m) * 60 + s) * NS_PER_S in
+            sdur (clamp (if v <? 0 then - r else r)) ++ [TZ t])
+  | "accessors"%string, [TZ c; TZ n; TZ t] =>
+      let t := norm_ts t in let v := pval c n in let a := Z.abs v in
+      Some (map TZ (epoch_accessors (mk_epoch c n t)),
+            match spec_fields t v with
+            | Some (y, mm, _, _, _, _, _) =>
+                [TZ y; TZ (mm - 1); TZ (a / 3600000000000 mod 24); TZ (a / 60000000000 mod 60); TZ (a / 1000000000 mod 60);
+                 TZ (a / 1000000 mod 1000); TZ (a / 1000 mod 1000); TZ (a mod 1000)]
             | None => nospec end)
   | "prev"%string, [TZ c; TZ n; TZ t; TZ w] =>
       let t := norm_ts t in let w := w mod 7 in let v := pval c n in
@@ -448,6 +473,18 @@ Definition dispatch_views (name : string) (a : list tok) : option (list tok * li
             if f_finite_bits xb then
               let '(lo, hi) := prod_range xb 1000000 in [TNoSpec; TNoSpec; range_tok_clamped (UNIX_REF_UTC_NS + lo) (UNIX_REF_UTC_NS + hi)]
             else nospec)
+  | "eadd_f64"%string, [TZ c; TZ n; TZ t; TZ b] =>
+      let t := norm_ts t in let x := f_of_bits b in let v := pval c n in
+      Some (tepoch (epoch_add_f64 (mk_epoch c n t) x),
+            (* float seconds that are an exact integer k whose nanosecond count k * 10^9 is itself a double: exactly v + k * 10^9 *)
+            if f_is_nan x || f_is_inf x then nospec else
+            match tt with
+            | _ => let k := f_to_int I128_MIN I128_MAX x in
+                   if (f_to_bits (f_of_Z k) =? f_to_bits x) && (Z.abs k <? 2 ^ 62) &&
+                      (f_to_int I128_MIN I128_MAX (f_of_Z (k * 1000000000)) =? k * 1000000000) && (Z.abs (k * 1000000000) <? 2 ^ 100)
+                      && in_rangev (k * 1000000000) && in_rangev (v + k * 1000000000)      (* "such that the result stays representable" *)
+                   then sdur (clamp (v + k * 1000000000)) ++ [TZ t] else nospec
+            end)
   | "from_unix_d"%string, [TZ c; TZ n] =>
       Some (match from_unix_duration (from_parts c n) with Some e => tepoch e | None => nospec end,
             sdur (clamp (UNIX_REF_UTC_NS + pval c n)) ++ [TZ 4])
@@ -463,13 +500,6 @@ Definition format_debug (f : format) : str :=
   [69;112;111;99;104;70;111;114;109;97;116;58;96] ++
   flat_map (fun it => nth_str (token it) TOKEN_NAMES ++ (match sep_char it with Some c => [c] | None => [] end) ++
                       (match second_sep_char it with Some c => [c] | None => [] end) ++ (if optional it then [63] else [])) f ++ [96].
-(* spec of the Gregorian fields of (scale, count): from the calendar spec *)
-Definition spec_fields (t v : Z) : option (Z * Z * Z * Z * Z * Z * Z) :=
-  let w := v + spec_gregorian_zero t in
-  if in_rangev w then
-    let '(y, m, d) := civil_of_days (w / NS_PER_DAY) in let r := w mod NS_PER_DAY in
-    Some (y, m, d, r / (3600 * NS_PER_S), r / (60 * NS_PER_S) mod 60, r / NS_PER_S mod 60, r mod NS_PER_S)
-  else None.
 Definition spec_ts_name (t : Z) : str :=
   match t with 0 => [84;65;73] | 1 => [84;84] | 2 => [69;84] | 3 => [84;68;66] | 4 => [85;84;67] | 5 => [71;80;83;84]
              | 6 => [71;83;84] | 7 => [66;68;84] | _ => [81;90;83;83;84] end.
